@@ -1969,7 +1969,10 @@ def m_push_str(eng, st, args, info):
     if tgt[0] != 'ref':
         return None
     cur = eng._read_lv(st, tgt[1])
-    eng._write_lv(st, tgt[1], concat(cur, args[1]), info['fn'], event=False)
+    piece = args[1]
+    while piece[0] in ('ref', 'K') or (piece[0] == 'der' and piece[1][0] in ('ref', 'K', 'call')):
+        piece = piece[1]          # the text pushed, not the reference to it
+    eng._write_lv(st, tgt[1], concat(cur, piece), info['fn'], event=False)
     return [(st, UNIT)]
 
 
@@ -2069,6 +2072,82 @@ def m_slice_get(eng, st, args, info):
     return None
 
 
+def m_slice_contains(eng, st, args, info):
+    """<[T]>::contains(&x) on a constant array of at most 8 elements: the disjunction of the element-wise equalities, tested in order"""
+    a, x = args[0], _deref_arg(eng, st, args[1])
+    guard = 0
+    while a[0] in ('ref', 'K', 'der', 'named', 'call') and guard < 8:
+        guard += 1
+        if a[0] == 'named':
+            a = NAMED_CONSTS.get(a[1], ('unk',))
+        elif a[0] == 'call':
+            if a[1].endswith('Deref>::deref') or a[1].endswith('as_slice'):
+                a = a[2][0]
+            else:
+                return None
+        elif a[0] == 'ref' and a[1][0] == 'L':
+            a = eng._read_lv(st, a[1])
+        else:
+            a = a[1]
+    if not (a[0] == 'agg' and a[1] == 'array' and 0 < len(a[4]) <= 8):
+        return None
+    out = []
+    pending = [st]
+    for _, el in a[4]:
+        nxt = []
+        eqt = struct_eq(el, x, eng.facts)
+        for s_ in pending:
+            for s2, truth in eng._fork_bool(s_, eqt):
+                if truth:
+                    out.append((s2, TRUE))
+                else:
+                    nxt.append(s2)
+        pending = nxt
+    for s_ in pending:
+        out.append((s_, FALSE))
+    return out
+
+
+def _str_of(t):
+    while isinstance(t, tuple) and t and t[0] in ('ref', 'K', 'der'):
+        t = t[1]
+    return t
+
+
+def m_str_chars(eng, st, args, info):
+    """str::chars(): a cursor over the characters of a (possibly unknown) string term"""
+    return [(st, ('charsit', _str_of(args[0]), 0))]
+
+
+def _chars_advance(eng, st, args, info, skip):
+    if not args or args[0][0] != 'ref':
+        return None
+    cur = eng._read_lv(st, args[0][1])
+    if not (isinstance(cur, tuple) and cur and cur[0] == 'charsit'):
+        return None
+    s, k = cur[1], cur[2] + skip
+    eng._write_lv(st, args[0][1], ('charsit', s, k + 1), info['fn'], event=False)
+    if is_const(s) and isinstance(s[1], str):
+        if k < len(s[1]):
+            return [(st, mk_adt(OPTION, 'Some', [('0', C(('char', s[1][k])))]))]
+        return [(st, mk_adt(OPTION, 'None', []))]
+    # unknown text: either it has a k-th character (the term charat(s, k)) or the cursor is exhausted - an ordinary branch on haschar(s, k)
+    out = []
+    for s2, present in eng._fork_bool(st, ('haschar', s, k)):
+        out.append((s2, mk_adt(OPTION, 'Some', [('0', ('charat', s, k))]) if present else mk_adt(OPTION, 'None', [])))
+    return out
+
+
+def m_chars_next(eng, st, args, info):
+    return _chars_advance(eng, st, args, info, 0)
+
+
+def m_iter_nth(eng, st, args, info):
+    if len(args) == 2 and is_const(args[1]) and isinstance(args[1][1], int):
+        return _chars_advance(eng, st, args, info, args[1][1])
+    return None
+
+
 def m_prim_ref_op(eng, st, args, info):
     """operator impls of the primitive integers on references (`u8 | &u8`, `&u64 & u64`, ...): the operation on the referents"""
     name = info['name']
@@ -2089,6 +2168,10 @@ def m_prim_ref_op(eng, st, args, info):
 PATTERN_MODELS = [
     (re.compile(r'^<&?(u8|u16|u32|u64|usize|i8|i16|i32|i64|isize) as std::ops::(BitOr|BitAnd|BitXor|Add|Sub|Mul|Shl|Shr)<&?\w+>>::\w+$'), m_prim_ref_op),
     (re.compile(r'^core::slice::<impl \[T\]>::get(::<.*>)?$'), m_slice_get),
+    (re.compile(r'^core::slice::<impl \[T\]>::contains$'), m_slice_contains),
+    (re.compile(r'^core::str::<impl str>::chars$'), m_str_chars),
+    (re.compile(r"^<std::str::Chars<'\w+> as std::iter::Iterator>::next$"), m_chars_next),
+    (re.compile(r"^(std::iter::Iterator::nth|<std::str::Chars<'\w+> as std::iter::Iterator>::nth)$"), m_iter_nth),
     (re.compile(r'^core::num::<impl u8>::to_ascii_lowercase$'), m_ascii_case(True)),
     (re.compile(r'^core::num::<impl u8>::to_ascii_uppercase$'), m_ascii_case(False)),
     (re.compile(r'^core::num::<impl \w+>::trailing_zeros$'), m_int_method('trailing_zeros')),
